@@ -113,6 +113,23 @@ def gen_arity(rng):
     args = [rng.choice([2, 3, 6]) for _ in range(nargs)]
     return {"kind": "arity", "text": "\n".join(lines) + "\n", "args": args, "npar": npar}
 
+def gen_deep(rng, force=False):
+    """a nucleotide-level structure with a very deep helix (beyond the depth the recursive dot-paren grammar handles)
+    followed by a tail that is balanced, has its brackets in the wrong order, or has one bracket too many"""
+    D = rng.choice([70, 120, 150, 300]); k = rng.randrange(3, 8); a = rng.randrange(2, 8); b = rng.randrange(3, 6)
+    tail = rng.choice(["ok", "swapped", "extra-close", "extra-open", "none"])
+    if force: D, tail = 150, "swapped"      # every run: deep helix first, then a region with its brackets in the wrong order
+    helix = "%d( %d. %d)" % (D, k, D)
+    if tail == "ok": t, tl = " %d( %d. %d)" % (a, b, a), 2 * a + b
+    elif tail == "swapped": t, tl = " %d) %d. %d(" % (a, b, a), 2 * a + b
+    elif tail == "extra-close": t, tl = " %d. %d)" % (b, a), a + b
+    elif tail == "extra-open": t, tl = " %d( %d." % (a, b), a + b
+    else: t, tl = "", 0
+    if rng.random() < 0.5 and not force: helix, t = (t.strip(), " " + helix) if t else (helix, t)
+    L = 2 * D + k + tl
+    text = "declare component prog: ->\nsequence x = \"%dN\"\nstrand s = x\nstructure S = s : %s%s\n" % (L, helix, t)
+    return {"kind": "text", "mut": "deep-helix/" + tail, "text": text}
+
 def impl_case(case):
     import implrun
     r = implrun.compile_files({"prog.comp": case["text"]}, "prog", args=case.get("args", ()))
@@ -154,6 +171,8 @@ def run(tier, seed, build):
             kind = "none"
             if rng.random() < 0.5: t, kind = mutate_text(rng, t)
             cases.append({"kind": "text", "mut": "domain-level/" + kind, "text": t})
+    for i in range(10 if tier == "quick" else 200):
+        cases.append(gen_deep(rng, force=(i == 0)))
     impl = fw.run_impl("props.c09", "impl_case", [{"text": c["text"], "args": c.get("args", ())} for c in cases])
     reqs = []; where = []
     for i, (c, r) in enumerate(zip(cases, impl)):
